@@ -457,8 +457,19 @@ def rule_targetchk(P) -> RuleResult:
         oi, oc = tree_hooks(lambda x, _r=root: _r)
         paths = Engine(P, on_isinstance=oi, on_call=oc, max_depth=16).paths(fi, {'self': SELF, fi.params[1]: SList([TG])})
         ok &= judge('select', fi, 'SELECT', paths, False, label)
+    # ... whichever place the bad expression has in the list: first of two targets, the other one fine
+    if good_trees:
+        TG2 = Sym('AST_TARGET_2')
+        fine = good_trees[0][1]
+        for label, root, why in bad_trees:
+            for bad_first in (True, False):
+                bad_t, good_t = (TG, TG2) if bad_first else (TG2, TG)
+                oi, oc = tree_hooks(lambda x, _r=root, _b=bad_t: _r if x == T('attr', (_b, 'expression')) else fine)
+                paths = Engine(P, on_isinstance=oi, on_call=oc, max_depth=16).paths(fi, {'self': SELF, fi.params[1]: SList([TG, TG2])})
+                ok &= judge('select', fi, 'SELECT', paths, True, f'{label} ({"first" if bad_first else "second"} of two targets)')
     if ok:
-        res.ok({'site': 'SELECT targets', 'bad_trees_rejected': len(bad_trees), 'good_trees_accepted': len(good_trees)})
+        res.ok({'site': 'SELECT targets', 'bad_trees_rejected': len(bad_trees), 'good_trees_accepted': len(good_trees),
+                'positions': 'alone, first of two, second of two'})
     # ORDER BY new expression
     fi = _method(P, '_compile_order_by')
     SPEC = Sym('SPEC')
